@@ -561,4 +561,126 @@ theorem iorLoop_lookup {b acc r : StorageMap} (hb : (keys b).Nodup) (h : iorLoop
     · have e' : k ≠ k0 := fun x => e x.symm
       simp only [lookup, e, if_false, iorKey_lookup h1 k, e']
 
+/-! ### subtraction on a mount point the minuend has -/
+
+theorem reduceFrom_sub_total_present {ds : List Storage} {acc r : StorageMap} {μ : Name} (hμ : μ ∈ keys acc)
+    (h : reduceFrom Storage.sub acc ds = .ok r) : mountTotal r μ = mountTotal acc μ - listTotal ds μ := by
+  induction ds generalizing acc with
+  | nil => simp only [reduceFrom] at h; cases h; simp only [listTotal]; grind
+  | cons d ds ih =>
+    simp only [reduceFrom, bind_eq_ok] at h
+    obtain ⟨acc', h1, h2⟩ := h
+    have hk : μ ∈ keys acc' := by
+      rw [upsert_keys h1]; split
+      · exact hμ
+      · exact List.mem_append_left _ hμ
+    rw [ih hk h2, upsert_total (-d.size) (by intro a; simp only [storageSub]; grind) h1 μ]
+    simp only [listTotal]
+    by_cases hd : d.mount = μ
+    · rw [if_pos hd, if_pos hd, if_pos (hd ▸ hμ)]; grind
+    · rw [if_neg hd, if_neg hd]; grind
+
+/-- `a − b` on cores, memory and every mount point `a` has -/
+theorem sub_totals {a b r : Hardware} (h : a.sub b = .ok r) :
+    r.cores = a.cores - b.cores ∧ r.memory = a.memory - b.memory ∧
+    ∀ μ ∈ mounts a.storage, mountTotal r.storage μ = mountTotal a.storage μ - mountTotal b.storage μ := by
+  simp only [Hardware.sub, bind_eq_ok] at h
+  obtain ⟨sa, hsa, sb, hsb, st, hst, e⟩ := h
+  cases e
+  refine ⟨rfl, rfl, fun μ hμ => ?_⟩
+  rw [mkHardware_total]
+  simp only [reduceStorages, reduceFrom_append, bind_eq_ok] at hst
+  obtain ⟨acc, h1, h2⟩ := hst
+  have han := normalizeStorage_normal hsa
+  have hacc : acc = sa := by
+    have := reduceFrom_copy (op := Storage.sub) sa [] (by simpa using han)
+    simp only [List.nil_append] at this
+    rw [this] at h1; cases h1; rfl
+  subst hacc
+  rw [reduceFrom_sub_total_present ((normalizeStorage_keys hsa μ).mpr hμ) h2, ← mountTotal_eq_listTotal,
+    normalizeStorage_total hsa, normalizeStorage_total hsb]
+
+/-- the mount points of `a − b` -/
+theorem sub_mounts {a b r : Hardware} (h : a.sub b = .ok r) (μ : Name) (hμ : μ ∈ mounts r.storage) :
+    μ ∈ mounts a.storage ∨ μ ∈ mounts b.storage ∨ μ = root := by
+  simp only [Hardware.sub, bind_eq_ok] at h
+  obtain ⟨sa, hsa, sb, hsb, st, hst, e⟩ := h
+  cases e
+  by_cases hne : st = []
+  · subst hne
+    simp [mkHardware, mounts] at hμ
+    exact Or.inr (Or.inr hμ)
+  · rw [mkHardware_storage_of_ne _ _ hne] at hμ
+    have hn : Normal st := reduceFrom_normal (f := storageSub) Normal.nil hst
+    have hk : μ ∈ keys st := by
+      simp only [mounts, List.mem_map] at hμ
+      obtain ⟨kd, hkd, e⟩ := hμ
+      simp only [keys, List.mem_map]
+      exact ⟨kd, hkd, by rw [hn.keyMount kd hkd]; exact e⟩
+    rw [reduceFrom_keys hst] at hk
+    simp only [keys_nil, List.not_mem_nil, false_or, List.map_append, List.mem_append] at hk
+    rcases hk with hk | hk
+    · left
+      have : μ ∈ keys sa := by
+        have hna := normalizeStorage_normal hsa
+        simp only [values, List.map_map, List.mem_map] at hk
+        obtain ⟨kd, hkd, e⟩ := hk
+        simp only [keys, List.mem_map]
+        exact ⟨kd, hkd, by rw [hna.keyMount kd hkd]; exact e⟩
+      exact (normalizeStorage_keys hsa μ).mp this
+    · right; left
+      have : μ ∈ keys sb := by
+        have hnb := normalizeStorage_normal hsb
+        simp only [values, List.map_map, List.mem_map] at hk
+        obtain ⟨kd, hkd, e⟩ := hk
+        simp only [keys, List.mem_map]
+        exact ⟨kd, hkd, by rw [hnb.keyMount kd hkd]; exact e⟩
+      exact (normalizeStorage_keys hsb μ).mp this
+
+/-- `satisfies` returns `True` exactly when cores, memory and every mount point of the requirement fit -/
+theorem satisfies_ok_true_iff (cap req : Hardware) (hc : ValidMap cap.storage) (hr : ValidMap req.storage) :
+    cap.satisfies req = .ok true ↔
+      req.cores ≤ cap.cores ∧ req.memory ≤ cap.memory ∧
+      ∀ μ ∈ mounts req.storage, μ ∈ mounts cap.storage ∧ mountTotal req.storage μ ≤ mountTotal cap.storage μ := by
+  obtain ⟨on, hon⟩ := normalizeStorage_ok req.storage ((ValidMap_iff _).mp hr)
+  obtain ⟨sn, hsn⟩ := normalizeStorage_ok cap.storage ((ValidMap_iff _).mp hc)
+  have hO := normalizeStorage_normal hon
+  have hS := normalizeStorage_normal hsn
+  unfold Hardware.satisfies coresMemoryOk
+  by_cases hcm : req.cores ≤ cap.cores ∧ req.memory ≤ cap.memory
+  · have : (decide (cap.cores ≥ req.cores) && decide (cap.memory ≥ req.memory)) = true := by simpa using hcm
+    simp only [this, if_true, hon, hsn, bind, Except.bind, pure, Except.pure]
+    by_cases hmiss : ((keys on).any (fun k => !(keys sn).contains k)) = true
+    · simp only [hmiss, if_true]
+      obtain ⟨μ, h1, h2⟩ := (any_missing_iff _ _).mp hmiss
+      constructor
+      · intro h; cases h
+      · rintro ⟨_, _, h⟩
+        exact absurd ((normalizeStorage_keys hsn μ).mpr (h μ ((normalizeStorage_keys hon μ).mp h1)).1) h2
+    · simp only [hmiss]
+      have hsub : ∀ μ ∈ keys on, μ ∈ keys sn := by
+        intro μ hμ
+        by_cases h : μ ∈ keys sn
+        · exact h
+        · exact absurd ((any_missing_iff _ _).mpr ⟨μ, hμ, h⟩) hmiss
+      simp only [Bool.false_eq_true, if_false, Except.ok.injEq, allDisksOk_totals hS hO hsub]
+      constructor
+      · intro h
+        refine ⟨hcm.1, hcm.2, fun μ hμ => ?_⟩
+        have hk := (normalizeStorage_keys hon μ).mpr hμ
+        refine ⟨(normalizeStorage_keys hsn μ).mp (hsub μ hk), ?_⟩
+        rw [← normalizeStorage_total hon, ← normalizeStorage_total hsn]; exact h μ hk
+      · rintro ⟨_, _, h⟩ μ hμ
+        rw [normalizeStorage_total hon, normalizeStorage_total hsn]
+        exact (h μ ((normalizeStorage_keys hon μ).mp hμ)).2
+  · have : (decide (cap.cores ≥ req.cores) && decide (cap.memory ≥ req.memory)) = false := by
+      simp only [ge_iff_le, Bool.and_eq_false_iff, decide_eq_false_iff_not]
+      by_cases h1 : req.cores ≤ cap.cores
+      · exact Or.inr (fun h2 => hcm ⟨h1, h2⟩)
+      · exact Or.inl h1
+    simp only [this, Bool.false_eq_true, if_false, pure, Except.pure]
+    constructor
+    · intro h; cases h
+    · rintro ⟨h1, h2, _⟩; exact absurd ⟨h1, h2⟩ hcm
+
 end SFV.HW
